@@ -28,6 +28,28 @@ type slashEval struct {
 	ambiguous map[string]bool        // validator|denom where the full-withdraw rounding decision is within fixed-point error
 }
 
+// wipedOut: the slashes of this step left (almost) no validator shares of the asset although it keeps its staked
+// total (every validator that held it was cut by ~100 %). Token values are then quotients of rounding remainders
+// (or the module's "no shares: everything" rule) and are not compared; the state itself is the open finding
+// C12-entitlement-inflated-in-fully-slashed-asset / C05-zero-value-validator.
+func (ev *slashEval) wipedOut(denom string) bool {
+	pre := ShareStateOf(ev.pre)
+	a, b := pre.S[denom], ev.model.S[denom]
+	if a == nil || b == nil || a.Sign() <= 0 {
+		return false
+	}
+	return b.Sign() <= 0 || rquo(b, a).Cmp(big.NewRat(1, 1_000_000_000)) < 0
+}
+
+// growth is how much larger than before the slash a value stated in tokens has become: rounding remainders of up
+// to one base unit that arise before the redistribution are scaled with it.
+func growth(before, after *big.Rat) *big.Rat {
+	if before.Sign() <= 0 || after.Cmp(before) <= 0 {
+		return big.NewRat(1, 1)
+	}
+	return rquo(after, before)
+}
+
 // redistribution is the factor by which every remaining position of an asset grows because the value cut from
 // redelegation destinations left their validators: the asset's validator-share total before / after those cuts.
 func (ev *slashEval) redistribution(denom string) *big.Rat {
@@ -120,10 +142,15 @@ func compareModel(r *Runner, clause string, ev *slashEval) bool {
 			r.Probe("slash_full_withdraw_decision_within_rounding_error")
 			continue
 		}
+		if ev.wipedOut(p.Denom) {
+			r.Probe("slash_left_asset_without_validator_shares")
+			continue
+		}
 		want := ev.model.PosValue(p)
 		got := ev.post.PosValue(p)
 		// amount moved on this validator: at most what it holds
 		tol := tolMax(ev.pre, ev.post, p.Val, p.Denom, maxRat(ev.pre.ValTokens(p.Val, p.Denom), ev.post.ValTokens(p.Val, p.Denom)))
+		tol = rmul(tol, growth(ev.pre.PosValue(p), want))
 		if !within(want, got, tol) {
 			kind := "bonded"
 			if ev.destPos[p] {
@@ -209,14 +236,14 @@ func (m *monC06) OnStep(r *Runner, st *Step) {
 	// g follows from the validator-share algebra. Value taken from redelegation destinations on the
 	// same validator may only add to that (redistribution), never subtract.
 	for _, p := range allPositions(pre, post) {
-		if ev.destPos[p] || ev.ambiguous[p.Val+"|"+p.Denom] {
+		if ev.destPos[p] || ev.ambiguous[p.Val+"|"+p.Denom] || ev.wipedOut(p.Denom) {
 			continue
 		}
 		// (value taken from redelegation destinations leaves their validator like a bonded slash does: the asset's
 		// validator-share total shrinks and every remaining position scales by the same second factor)
 		base := rmul(ev.scaled.PosValue(p), ev.redistribution(p.Denom))
 		got := post.PosValue(p)
-		tol := tolMax(pre, post, p.Val, p.Denom, maxRat(base, got))
+		tol := rmul(tolMax(pre, post, p.Val, p.Denom, maxRat(base, got)), growth(pre.PosValue(p), base))
 		if got.Cmp(rsub(base, tol)) < 0 {
 			r.Violate("C06.a", "position-lost-value", fmt.Sprintf("slash of %s by %s: position %s worth %s, proportional rule gives %s", short(ev.val), rstr(ev.f), p, rstr(got), rstr(base)))
 			return
@@ -357,7 +384,7 @@ func (m *monC07) OnStep(r *Runner, st *Step) {
 			r.Probe("c07_destination_emptied")
 			continue
 		}
-		if ev.ambiguous[p.Val+"|"+p.Denom] {
+		if ev.ambiguous[p.Val+"|"+p.Denom] || ev.wipedOut(p.Denom) {
 			continue
 		}
 		base := ev.scaled.PosValue(p)
@@ -371,7 +398,7 @@ func (m *monC07) OnStep(r *Runner, st *Step) {
 			wantHi = want
 		}
 		got := post.PosValue(p)
-		tol := radd(tolMax(st.Pre, post, p.Val, p.Denom, maxRat(base, byPos[p])), big.NewRat(int64(len(ev.groups)), 1))
+		tol := rmul(radd(tolMax(st.Pre, post, p.Val, p.Denom, maxRat(base, byPos[p])), big.NewRat(int64(len(ev.groups)), 1)), growth(st.Pre.PosValue(p), rmul(base, G)))
 		if got.Cmp(rsub(want, tol)) >= 0 && got.Cmp(radd(wantHi, tol)) <= 0 {
 			continue
 		}
